@@ -147,6 +147,7 @@ type machine struct {
 	fold      map[string]*Term
 	smallVars map[string]*inputVar
 	runesMax  int
+	digitsMax int
 	splitMax  int
 	varCache  map[*Term][]string
 	concrete  map[string]*Term
@@ -471,19 +472,36 @@ func canonicalScript(s string) string {
 // solver portfolio while the answer is unknown.
 func (m *machine) checkWith(extra *Term) Result {
 	res := Unknown
-	script := ""
-	for i, ss := range m.sessions {
+	script := canonicalScript(m.script([]*Term{extra}, nil, true))
+	if r, ok := queryCache.Load(script); ok {
+		atomic.AddInt64(&cacheHits, 1)
+		return r.(Result)
+	}
+	// queries with regular-expression membership go to cvc5 first, the
+	// others to the z3 server (measured: each is the faster one there)
+	order := make([]int, 0, len(m.sessions))
+	if strings.Contains(script, "str.in_re") {
+		for i, ss := range m.sessions {
+			if !ss.s.server {
+				order = append(order, i)
+			}
+		}
+		for i, ss := range m.sessions {
+			if ss.s.server {
+				order = append(order, i)
+			}
+		}
+	} else {
+		for i := range m.sessions {
+			order = append(order, i)
+		}
+	}
+	for _, i := range order {
+		ss := m.sessions[i]
 		if ss.s.dead {
 			continue
 		}
 		if ss.s.oneshot || ss.s.server {
-			if script == "" {
-				script = canonicalScript(m.script([]*Term{extra}, nil, true))
-				if r, ok := queryCache.Load(script); ok {
-					atomic.AddInt64(&cacheHits, 1)
-					return r.(Result)
-				}
-			}
 			t0 := time.Now()
 			var r Result
 			var err error
